@@ -373,7 +373,16 @@ def run(ctx):
                 "`the same data written as JSON, JSON5 or YAML yields the same keys, diagnostics and rendered text`: a callback only one "
                 "format uses (visit_string for json5) that treats some strings differently makes the result depend on the file format",
                 only=r"ParsedValueSeed::visit_", floor=1)
-    return [r1_unordered(ctx, cfgs), r2_ambient(ctx, cfgs), r4_frontends(ctx), r5_types(ctx, cfgs), r6_sorted(ctx, cfgs[:1]), r7_key_order(ctx), r8]
+    # a number written in a range reaches the numeric type as u64, i64 or f64 depending on the file format (serde_json: u64 for
+    # non-negative integers, json5: i64, YAML: either): the 30 RangeNumber::from_* impls accept the same numbers whatever the form
+    # (MIR summaries, rules/c04.py)
+    from rules import c04
+    from report import Rule as _Rule
+    r9 = _Rule("C10.R9", "a number in a range is accepted alike whichever 64-bit form the file format hands over",
+               "`the same diagnostics regardless of which file format the same data was written in`: the formats deliver the same number through "
+               "different visitor callbacks; a conversion that is stricter for one of them rejects a declaration in JSON that loads in JSON5", floor=1)
+    c04.number_forms(ctx.mir("main"), r9, "R9")
+    return [r1_unordered(ctx, cfgs), r2_ambient(ctx, cfgs), r4_frontends(ctx), r5_types(ctx, cfgs), r6_sorted(ctx, cfgs[:1]), r7_key_order(ctx), r8, r9]
 
 
 MANIFEST_ENTRY = {
